@@ -91,7 +91,7 @@ if not _probe_vfs():
 warm_sqlite()
 
 # Building a LogRecord reads time.time(), which CrossHair turns into a symbolic float and then forks on (msecs arithmetic):
-# run_migrations logs "Could not enable WAL journal mode" on every unix-none open, update_handler_status logs "run not found".
+# update_handler_status logs "run not found" when the script updates a status before any upsert, run_migrations logs on its fallbacks.
 # Log output is not an observation of this property: switch record creation off for the whole process.
 logging.disable(logging.CRITICAL)
 
